@@ -1,9 +1,9 @@
 #!/bin/bash
-# usage: tools/s5_one.sh <ID> [letter]   — round-5 seeded change of an author agent in /tmp/s5/out/<ID>:
+# usage: [S5_OUT=<dir>] [S5_ROUND=<n>] tools/s5_one.sh <ID> [letter]   — round-5 seeded change of an author agent in /tmp/s5/out/<ID>:
 # re-confirm it (tools/confirm_seeded.sh, own scratch worktree), and when confirmed keep it as /verif/seeded/<ID>/<letter>/
-# and run the property's own check plus every other property's check against it (tools/mut.sh, own scratch worktree).
+# and run the property's own check against it (S5_ALSO=Cxx,Cyy: further checks recorded in meta for tools/seeded_all.py) (tools/mut.sh, own scratch worktree).
 set -u
-ID=$1; L=${2:-i}; S=/tmp/s5/out/$ID
+ID=$1; L=${2:-i}; S=${S5_OUT:-/tmp/s5/out}/$ID
 [ -f $S/patch.diff ] && [ -f $S/meta.json ] && [ -f $S/demo/where.txt ] || { echo "$ID: deliverables missing"; exit 1; }
 line=$(/verif/tools/confirm_seeded.sh $S /tmp/s5/cf-$ID | tail -1)
 echo "$line"
@@ -14,10 +14,10 @@ python3 - "$S/meta.json" "$D/meta.json" "$ID" "$L" "$line" <<'EOF'
 import json, sys
 src, dst, pid, l, line = sys.argv[1:6]
 m = json.load(open(src))
-m.update({"property": pid, "variant": l, "round": 5, "status": "confirmed",
+m.update({"property": pid, "variant": l, "round": int(__import__("os").environ.get("S5_ROUND", "5")), "status": "confirmed",
           "confirmed_by": "tools/confirm_seeded.sh in a scratch worktree of /repo HEAD (demo without the change, apply, build, demo with the change, existing tests of the touched packages with the change and without the demo)",
           "confirm_result": line,
-          "also_check": [f"C{i:02d}" for i in range(1, 21) if f"C{i:02d}" != pid]})
+          "also_check": [p for p in __import__("os").environ.get("S5_ALSO", "").split(",") if p]})
 json.dump(m, open(dst, "w"), indent=1)
 EOF
 MUT_WORKTREE=/tmp/s5/mt-$ID /verif/tools/mut.sh $D/patch.diff $ID | cut -c1-400
